@@ -107,9 +107,11 @@ def interp(skind, series, pos, neg, t, s, mode, dt):
     return at(pos, c) * math.exp(-el / TD) - at(neg, c) * math.exp(-el / TR)
 
 
-def shard(conn, skind, dt, maxk, fractional, T, F=2, only_assign=None, only_clear=(), tol=0.0, alphabet_override=None, reassign_at=None, mode="previous", dt_from=None, float64=False):
+def shard(conn, skind, dt, maxk, fractional, T, F=2, only_assign=None, only_clear=(), tol=0.0, alphabet_override=None, reassign_at=None, mode="previous", dt_from=None, float64=False, maxdelay_from=None):
     """mode: the synapse's (spike) interpolation mode for off-grid delays; dt_from: both connections are constructed with this
-    step time and then assigned ``dt`` through the public setter before the run (the records must follow).
+    step time and then assigned ``dt`` through the public setter before the run (the records must follow); maxdelay_from: the
+    delayed connection is constructed with this (smaller) maximum delay and all-zero delays, then the synapse's maximum delay is
+    raised through ``connection.synapse.delay = max`` and the per-synapse delays are assigned.
     reassign_at = r: after r steps the per-synapse delays are replaced through the public setter (``conn.delay = D2``, the way
     an updater applies learned delays) by the assignment rotated one place through the alphabet; from then on the output is the
     shift by the *new* delays of the same undelayed history."""
@@ -135,7 +137,7 @@ def shard(conn, skind, dt, maxk, fractional, T, F=2, only_assign=None, only_clea
         x = torch.tensor([h[t] for h in hs], dtype=torch.bool)
         xs.append(x.reshape(B, 1, CONV_GEOM[conn][0], CONV_GEOM[conn][1]) if isconv else x)
     cfg = {"conn": conn, "synapse": skind, "dt": dt, "max_delay": maxdelay, "maxk": maxk, "fractional": fractional, "T": T, "F": F,
-           "batch=histories": B, "interp_tol": tol, "delay_alphabet": alphabet_override, "interp_mode": mode, "constructed_with_dt": dt_from, "float64": float64}
+           "batch=histories": B, "interp_tol": tol, "delay_alphabet": alphabet_override, "interp_mode": mode, "constructed_with_dt": dt_from, "float64": float64, "constructed_with_max_delay": maxdelay_from}
     for assign in itertools.product(alphabet, repeat=len(pos)):
         if only_assign is not None and list(assign) != list(only_assign):
             continue
@@ -150,7 +152,12 @@ def shard(conn, skind, dt, maxk, fractional, T, F=2, only_assign=None, only_clea
             case = {**cfg, "delays_in_steps": list(assign), "clear_before_step": clear_at, "reassign_at": reassign_at}
             tally.add("evaluations")
             try:
-                cd = build(conn, skind, dt if dt_from is None else dt_from, maxdelay, B, W, D, mode, tol)
+                if maxdelay_from is None:
+                    cd = build(conn, skind, dt if dt_from is None else dt_from, maxdelay, B, W, D, mode, tol)
+                else:
+                    cd = build(conn, skind, dt, maxdelay_from, B, W, torch.zeros_like(W), mode, tol)
+                    cd.synapse.delay = maxdelay
+                    cd.delay = D.clone()
                 cu = build(conn, skind, dt if dt_from is None else dt_from, None, B, W, D, mode, tol)
                 if dt_from is not None:
                     cd.dt = dt
@@ -356,6 +363,12 @@ def run(rep):
     for skind in ("delta", "exp"):
         for f64 in (False, True):
             jobs.append((shard, ("direct", skind, 1.7, 6, False, 7, 2, None, (), 0.0, (0, 3, 6), None, "previous", None, f64)))
+    # the maximum delay raised through the synapse's setter after construction (from 0, from half a step, from one step), to one
+    # and to two steps
+    for conn in ("dense", "direct"):
+        for skind in ("delta", "deltaplus", "exp", "dexp"):
+            for mfrom, mk in ((0.0, 1), (0.5, 1), (1.0, 2), (0.0, 2)):
+                jobs.append((shard, (conn, skind, 1.0, mk, False, T, 2, None, (), 0.0, None, None, "previous", None, False, mfrom)))
     for conn in ("dense", "direct", "lateral", "conv", "conv22"):
         for skind in ("delta", "deltaplus", "exp", "dexp"):
             jobs.append((zero_maxdelay_shard, (conn, skind, 3 if conn != "conv22" else 2)))
@@ -390,6 +403,6 @@ def run(rep):
 def replay(case):
     t = shard(case["conn"], case["synapse"], case["dt"], case["maxk"], case["fractional"], case["T"], case.get("F", 2),
               only_assign=case["delays_in_steps"], only_clear=case["clear_before_step"], tol=case.get("interp_tol", 0.0), reassign_at=case.get("reassign_at"),
-              mode=case.get("interp_mode", "previous"), dt_from=case.get("constructed_with_dt"), float64=case.get("float64", False),
+              mode=case.get("interp_mode", "previous"), dt_from=case.get("constructed_with_dt"), float64=case.get("float64", False), maxdelay_from=case.get("constructed_with_max_delay"),
               alphabet_override=case.get("delay_alphabet"))
     return {"violations": [[v["key"], v["message"]] for v in t.violations]}
